@@ -5,8 +5,8 @@
     certificate, the time of the observation, the verdicts and payload sets of the harness's own top-down
     validation with the [rpki] crate (real signatures, hashes, resource sets), the payload sets expected
     from the API's configured view and the CAs' current certificates, the objects the API reports, the
-    RRDP snapshot, and the ROA derivation steps (create_updates / renewal) observed since the previous
-    quiescent point.
+    RRDP snapshot, and the ROA, ASPA and router-certificate derivation steps (create_updates / renewal) observed
+    since the previous quiescent point.
 
     [agrees]: the model relying party ([Rp.validate] evaluated here) accepts and rejects exactly what
     the reference validation accepts and rejects and produces the same payload sets; the model of the ROA
@@ -71,6 +71,50 @@ Definition derive_ok (d : dcase) : bool :=
        (if d_renew d then filter (held (tbl (d_res d)) (d_cert d)) (d_pre_simple d ++ flat_map snd (d_pre_aggr d))
         else relevant (tbl (d_res d)) (d_routes d) (d_cert d)).
 
+(** ** ASPA and router-certificate derivation steps *)
+Record acase := mkA {
+  a_cert : N;                                               (* resources of the certificate the step ran under (the NEW one) *)
+  a_res : list (N * N);                                     (* customer AS -> atoms *)
+  a_defs : list (N * list N);                               (* configured definitions when the step ran *)
+  a_pre : list (N * list N);                                (* ASPA objects of the class before: customer, providers *)
+  a_renew : bool;                                           (* key-roll activation *)
+  a_upd : list (N * list N); a_rem : list N;                (* the stored AspaObjectsUpdated event (empty if none was stored) *)
+  a_post : list (N * list N) }.
+
+Definition a_objs (l : list (N * list N)) : aobjs := map (fun '(c, ps) => (c, mkAI ps dummy)) l.
+Definition a_view (o : list (N * ainfo)) : list (N * list N) := map (fun '(c, i) => (c, ai_providers i)) o.
+Definition a_model (a : acase) : option (list (N * ainfo) * list N) :=
+  if a_renew a then Some (aspa_renewal (tbl (a_res a)) (fun _ _ => dummy) (a_cert a) (a_objs (a_pre a)))
+  else aspa_create_updates (tbl (a_res a)) (fun _ _ => dummy) (fun _ _ => true) (a_objs (a_pre a)) (a_defs a) (a_cert a).
+Definition aspa_agrees (a : acase) : bool :=
+  match a_model a with
+  | None => false
+  | Some u => seq_by aspa_eqb (a_view (fst u)) (a_upd a) && seq_by N.eqb (snd u) (a_rem a)
+              && seq_by aspa_eqb (a_view (aspa_apply (a_objs (a_pre a)) u)) (a_post a)
+  end.
+(** [aspa_exact] / [aspa_renewal_contained] on the implementation's state: after a derivation exactly the configured
+    definitions whose customer the certificate holds; after an activation the objects held before, within the new
+    certificate. *)
+Definition aspa_ok (a : acase) : bool :=
+  seq_by aspa_eqb (a_post a)
+    (filter (fun '(c, _) => aheld (tbl (a_res a)) (a_cert a) c) (if a_renew a then a_pre a else a_defs a)).
+
+Record bcase := mkB {
+  b_cert : N; b_res : list (N * N);                         (* (AS, key) pair -> atoms of the AS *)
+  b_defs : list N; b_pre : list N; b_renew : bool;
+  b_upd : list N; b_rem : list N; b_post : list N }.
+Definition b_objs (l : list N) : list (N * obj) := map (fun k => (k, dummy)) l.
+Definition b_model (b : bcase) : list (N * obj) * list N :=
+  if b_renew b then bgp_renewal (tbl (b_res b)) (fun _ => dummy) (b_cert b) (b_objs (b_pre b))
+  else bgp_create_updates (tbl (b_res b)) (fun _ => dummy) (b_objs (b_pre b)) (b_defs b) (b_cert b).
+Definition bgp_agrees (b : bcase) : bool :=
+  let u := b_model b in
+  (if b_renew b then seq_by N.eqb (map fst (fst u)) (b_upd b) else seq_by N.eqb (map fst (fst u)) (b_upd b))
+  && seq_by N.eqb (snd u) (b_rem b)
+  && seq_by N.eqb (map fst (bgp_apply (b_objs (b_pre b)) u)) (b_post b).
+Definition bgp_ok (b : bcase) : bool :=
+  seq_by N.eqb (b_post b) (filter (bheld (tbl (b_res b)) (b_cert b)) (if b_renew b then b_pre b else b_defs b)).
+
 (** ** The case *)
 Record case := mkCase {
   k_now : Z;
@@ -86,7 +130,9 @@ Record case := mkCase {
   k_api : list (uri * N);
   (* RRDP snapshot: (uri, content identity) *)
   k_rrdp : list (uri * N);
-  k_derive : list dcase }.
+  k_derive : list dcase;
+  k_aderive : list acase;
+  k_bderive : list bcase }.
 
 Definition run (c : case) : report := validate (N.to_nat (k_fuel c)) (k_now c) (k_repo c) (k_ta c).
 
@@ -100,7 +146,8 @@ Definition rp_agrees (c : case) : bool :=
   && seq_by pair_eqb (rkeys r) (k_ref_rkeys c)
   && negb (nofuel r).
 
-Definition agrees (c : case) : bool := rp_agrees c && forallb derive_agrees (k_derive c).
+Definition agrees (c : case) : bool :=
+  rp_agrees c && forallb derive_agrees (k_derive c) && forallb aspa_agrees (k_aderive c) && forallb bgp_agrees (k_bderive c).
 
 Definition is_nil {A} (l : list A) : bool := match l with [] => true | _ => false end.
 
@@ -128,7 +175,8 @@ Definition api_ok (c : case) : bool :=
 Definition rrdp_ok (c : case) : bool := seq_by uh_eqb (map (fun '(u, o) => (u, r_hash o)) (k_repo c)) (k_rrdp c).
 
 Definition c01_ok (c : case) : bool :=
-  rp_valid c && rp_exact c && api_ok c && rrdp_ok c && forallb derive_ok (k_derive c).
+  rp_valid c && rp_exact c && api_ok c && rrdp_ok c && forallb derive_ok (k_derive c)
+  && forallb aspa_ok (k_aderive c) && forallb bgp_ok (k_bderive c).
 
 Fixpoint failing_from {A} (f : A -> bool) (i : N) (l : list A) : list N :=
   match l with
